@@ -142,6 +142,14 @@ CHECKS["C15"] = dict(
    note="Exact values the property does not promise (integrator value, congruent yaw, leashed point) are SPEC-DRIFT only. Attitude errors within 0.01 rad of 180 degrees excluded. Built by a sub-task; 7 code mutations detected; reproduces the (since fixed) SO3Quat.log sign defect on the pre-fix tree.",
 )
 
+CHECKS["C20"] = dict(
+   technique="TLA+ specs UrosBus.tla (registries, lock, synchronous nested fan-out as a delivery stack, parameter store and caches, logger rows, event queue with nondeterministic ties) and EstimatorNode.tla (scheduling guards) model-checked exhaustively by TLC for small wirings; bound to the code in both directions: -simulate behaviours replayed call by call into real Core/Publisher/Subscriber/Param/Logger/AttitudeEstimator objects, and recorded real executions validated by TLC trace specs (UrosBusTrace, EstimatorNodeTrace)",
+   category="model_checking",
+   text="TLC proves exactly-once, no-stranger, wrong-type rejection, parameter visibility after the broadcast, logger rows (one per period, non-decreasing time, content = latest delivered) and the lock for all wirings within the bounds (345 k - 2.8 M states per configuration); publication order holds for acyclic relay graphs and, unrestricted, fails only on histories re-entrant on the same topic (InOrderUnlessReentrant proven exhaustively; the counterexample is classified, reproduced on the real classes and listed as a known finding). The estimator guards (no predict with dt <= 0, correction spacing >= dt_min - 1 ms) are model-checked on a 0.5 ms lattice. Conformance: 192 (quick) / 3520 (thorough) simulated behaviours executed on real objects with state compared after every action; 60 / 1500 randomised real executions (dyadic periods, ties, bursts, in-run set_param incl. logger/dt) plus a real Simulator+AttitudeEstimator+Logger graph validated event by event; estimator decision traces under bursts, duplicates and backward timestamps. Self-test: corrupted/truncated traces and six in-memory mutants must be flagged.",
+   design_ref="6/C20, 8",
+   note="Known finding: re-entrant same-topic publication reorders delivery (not repaired). Hooks (guarded, add-only, commit in MANIFEST.hooks) are used only to record launch_sim itself; everything else observes through the public API. Not covered: larger wirings beyond the random sample, set-up from inside callbacks, callbacks that raise. Built by a sub-task.",
+)
+
 NOT_YET = {}
 
 ALL = [f"C{i:02d}" for i in range(1, 21)]
